@@ -310,7 +310,19 @@ def r3(ctx):
     ctx.require(ok, b, 'new-positions', 'insert / replace add base + l for l in 0..len to the exclusion set', None)
     sw = [v for v in vals if (v[0] == 'var' and 'swap' in v[1]) or (v[0] == 'bin' and v[1] == 'Add' and v[3][0] == 'const' and v[3][2] == 1)
           or (v[0] == 'index')]
-    ctx.require(len([t for t in ins if cfg.innermost_loop(b, t.bb) is None]) == 2, b, 'swap-positions', 'swap adds swap_idx and swap_idx + 1', None)
+    # the two swapped positions: two single inserts, or `extend([i, i + 1])`
+    from analysis.seq import seq_of_iter as _soi
+    single = [core(sym(b, t.args[1])) for t in ins if cfg.innermost_loop(b, t.bb) is None]
+    for t in b.calls(r'Extend>::extend$|HashSet::extend$'):
+        if cfg.innermost_loop(b, t.bb) is None and match(core(sym(b, t.args[0])), _var('exclude_indices')):
+            tr = sym(b, t.args[1])
+            lit = [x for x in walk(nosite(tr)) if isinstance(x, tuple) and x and x[0] == 'agg' and x[1] == 'array']
+            if lit and peel(nosite(tr)) == lit[0] or (lit and len(list(walk(nosite(tr)))) <= len(list(walk(lit[0]))) + 3):
+                single += [core(e_) for e_ in lit[0][3]]
+    okp = len(single) == 2 and any(nosite(a_) == ('bin', 'Add', nosite(b_), ('const', '1_usize', 1)) or
+                                   (a_[0] == 'bin' and a_[1] == 'Add' and nosite(core(a_[2])) == nosite(b_) and match(core(a_[3]), Const(1)))
+                                   for a_, b_ in ((single[0], single[1]), (single[1], single[0])))
+    ctx.require(okp, b, 'swap-positions', 'swap adds swap_idx and swap_idx + 1', None)
 
 
 @rule('C15', 'R-C15-4', 'T13 PAIR (result string)',
@@ -324,6 +336,12 @@ def r4(ctx):
             ctx.fail(b, 'result-shape', 'edit_word returns %s' % show_in(b, v))
             continue
         s = core(v[3][0])
+        if s[0] == 'var' and len(s) > 2 and 'String' in b.local_ty(s[2]):
+            # the result assembled piece by piece (`String::with_capacity` + push_str): the pieces in the order they are appended
+            from analysis.seq import seq_of as _seq_of
+            sg = _seq_of(ctx.facts, b, s)
+            if sg is not None and len(sg) > 1 and all(x.kind in ('one', 'each') and not x.conds for x in sg):
+                s = ('agg', 'tuple', '', tuple(nosite(x.elem if x.kind == 'one' else x.src) for x in sg))
         subs = [x for x in walk(s) if isinstance(x, tuple) and x and x[0] == 'call' and x[1].endswith('CharString::sub')]
         if not subs:
             kinds.setdefault('unchanged', []).append((s, blk))
@@ -493,3 +511,34 @@ def r10(ctx):
         ctx.require(ok, b, 'enabled-kind|' + name, '`%s.unwrap()` (line %d) runs only for a kind code that was pushed under %s.is_some()' % (name, t.span['line'], name),
                     '`%s.unwrap()` (line %d) is not justified: %s -- with a non-contiguous set of enabled kinds a disabled provider is unwrapped (panic)' % (name, t.span['line'], why), t.span)
     ctx.ok(b, '%d provider unwrap sites of edit_word inspected' % len(sites))
+
+
+@rule('C15', 'R-C15-11', 'T4a GUARD (slice indexing in corrupt.rs cannot run past the end)',
+      'every bounds-checked index in src/corrupt.rs is either a position drawn from a WeightedIndex over the parallel weight list (the reviewed '
+      'sample_edit site) or dominated by a comparison `index < len` of the indexed slice: a hand-written walk `while r >= weights[idx] { idx += 1 }` has '
+      'no such bound -- floating point rounding lets a draw near the total run one step past the last weight, and edit_word panics')
+def r11(ctx):
+    from analysis.facts import Operand
+    n = 0
+    for b in ctx.facts.bodies:
+        if b.file() != 'src/corrupt.rs' or b.span['exp'] or b.path in ctx.facts.inlined_paths:
+            continue
+        ctx.stats['bodies_inspected'].add(b.path)
+        for t in b.terms('assert'):
+            if t.msg['k'] != 'bounds':
+                continue
+            n += 1
+            idx = sym(b, Operand(t.msg['index']))
+            ln = sym(b, Operand(t.msg['len']))
+            ci = core(init_value(b, idx))
+            sampled = has(ci, Call('sample', ANY, ANY)) and has(ci, Call('WeightedIndex::new', ANY))
+            guarded = any(op in ('Lt',) and nosite(core(x)) == nosite(core(idx)) and (nosite(core(y)) == nosite(core(ln)) or match(core(y), Call('len', ANY)))
+                          for op, x, y in cmp_facts_at(b, t.bb)) or \
+                any(op in ('Gt',) and nosite(core(y)) == nosite(core(idx)) and (nosite(core(x)) == nosite(core(ln)) or match(core(x), Call('len', ANY)))
+                    for op, x, y in cmp_facts_at(b, t.bb))
+            const_ok = core(idx)[0] == 'const'
+            ctx.require(sampled or guarded or const_ok, b, 'index-bound|' + norm_path(b.path).rsplit('::', 1)[-1], 'the index at line %d is a WeightedIndex sample or bounded by the length' % t.span['line'],
+                        '%s: the index `%s` at line %d is not bounded by the length of the slice on every path: it can run past the end and panic' % (
+                            norm_path(b.path), show_in(b, idx)[:60], t.span['line']), t.span)
+    if n < 1:
+        raise AnchorMissing('bounds-checked indexing in src/corrupt.rs (found %d sites)' % n)
